@@ -207,12 +207,14 @@ func charCellEvents(id int, sc Scenario, seed int64, rp *spg.CharRecipe) (events
 		} else {
 			ev.Det = 0
 		}
-		if out.Tape.Leftover() > 0 || out.Unannounced > 0 || out2.Tape.Leftover() > 0 || out2.Unannounced > 0 {
+		if out.Tape.Leftover() > 0 || out.Unannounced > 0 {
 			// the code did not read exactly what the announced draws were given: the scripted words no longer line up with
 			// the draws, so this run says nothing about index -> outcome (no distribution or determinism verdict from it)
 			cell.Unstable = 1
 			ev.Det = -1
 		}
+		// (when only the RE-RUN, fed the same bytes in short chunks, fails to line up, the cell stays decidable from the
+		// fully delivered run, and a differing result is the determinism finding det = 0: the code did not complete a short read)
 		leaves = append(leaves, lf{ev, prod})
 	}
 	maxLeaves := sc.MaxLeaves
